@@ -81,6 +81,20 @@ type readCloserWrapper struct {
 
 var errWrongMagicNum = errors.New("expected magic number not found")
 
+// HasValidHeader reports whether the file at path starts with a complete
+// and consistent casblob header. A file that was still being written when
+// the server was killed does not: its chunk table is filled in last.
+func HasValidHeader(path string) bool {
+	f, err := os.Open(path)
+	if err != nil {
+		return false
+	}
+	defer func() { _ = f.Close() }()
+
+	_, err = readHeader(f)
+	return err == nil
+}
+
 // Read the header and leave f at the start of the data.
 func readHeader(f *os.File) (*header, error) {
 	var err error
